@@ -127,12 +127,45 @@ pub struct ShapeIterator<'a, T: Read, S: ReadableShape> {
     // Index of the next shape to read when there are shape indices
     // (also belongs to the reader).
     next_index: &'a mut usize,
+    // Set once an error was returned, nothing can be read after that.
+    failed: bool,
 }
 
 impl<T: Read + Seek, S: ReadableShape> Iterator for ShapeIterator<'_, T, S> {
     type Item = Result<S, crate::Error>;
 
     fn next(&mut self) -> Option<Self::Item> {
+        if self.failed {
+            return None;
+        }
+        let item = self.read_next();
+        if let Some(Err(_)) = item {
+            // After an error, the position in the source is unknown,
+            // returning the same error again and again would never end.
+            self.failed = true;
+            if self.shapes_indices.is_none() {
+                // and without index there is no way to find the next shape
+                *self.current_pos = self.file_length.max(*self.current_pos);
+            } else {
+                // with an index, the next shape will be seeked to
+                *self.current_pos = usize::MAX;
+            }
+        }
+        item
+    }
+
+    fn size_hint(&self) -> (usize, Option<usize>) {
+        self.shapes_indices
+            .map(|s| {
+                let remaining = s.len().saturating_sub(*self.next_index);
+                (remaining, Some(remaining))
+            })
+            .unwrap_or((0, None))
+    }
+}
+
+impl<T: Read + Seek, S: ReadableShape> ShapeIterator<'_, T, S> {
+    fn read_next(&mut self) -> Option<Result<S, crate::Error>> {
         if let Some(shapes_indices) = self.shapes_indices {
             // Its 'safer' to seek to the shape offset when we have the `shx` file
             // as some shapes may not be stored sequentially and may contain 'garbage'
@@ -156,15 +189,6 @@ impl<T: Read + Seek, S: ReadableShape> Iterator for ShapeIterator<'_, T, S> {
         *self.current_pos += record::RecordHeader::SIZE;
         *self.current_pos += hdr.record_size as usize * 2;
         Some(Ok(shape))
-    }
-
-    fn size_hint(&self) -> (usize, Option<usize>) {
-        self.shapes_indices
-            .map(|s| {
-                let remaining = s.len().saturating_sub(*self.next_index);
-                (remaining, Some(remaining))
-            })
-            .unwrap_or((0, None))
     }
 }
 
@@ -373,6 +397,7 @@ impl<T: Read + Seek> ShapeReader<T> {
             file_length: (self.header.file_length as usize) * 2,
             shapes_indices: self.shapes_index.as_deref(),
             next_index: &mut self.next_index,
+            failed: false,
         }
     }
 
